@@ -146,7 +146,38 @@ func valueFidelity(c *Ctx, p *Prog, m *Model, mr *ModeReach, rule string) {
 				r.Check(len(probs) == 0, rule, key, p.Pos(instrPos(cs)), "shortest round-trip text: precision -1, bit size of the value's own type", strings.Join(probs, "; "))
 			case "strconv.AppendInt", "strconv.AppendUint", "strconv.FormatInt", "strconv.FormatUint":
 				n++
+				// a call site that passes base 16 right after writing the literal prefix "0x" renders a self-describing
+				// hexadecimal number (a dedicated value kind): the digits are read back in base 16 by that prefix
+				p.skipSite = func(site ssa.CallInstruction) bool {
+					is16 := false
+					for _, a := range site.Common().Args {
+						if k, isC := constInt(a); isC && k == 16 {
+							is16 = true
+						}
+					}
+					if !is16 {
+						return false
+					}
+					sawZero, sawX := false, false
+					for _, in := range site.Block().Instrs {
+						if in == ssa.Instruction(site) {
+							break
+						}
+						if st, isSt := in.(*ssa.Store); isSt {
+							if k, isC := constInt(st.Val); isC {
+								if k == '0' {
+									sawZero = true
+								}
+								if k == 'x' && sawZero {
+									sawX = true
+								}
+							}
+						}
+					}
+					return sawX
+				}
 				bv, ok := p.constLeaves(args[len(args)-1], 0, map[ssa.Value]bool{})
+				p.skipSite = nil
 				good := ok
 				for _, v := range bv {
 					if i, _ := constant.Int64Val(constant.ToInt(v)); i != 10 {
@@ -3083,7 +3114,8 @@ func namedArgsInPlace(c *Ctx, p *Prog, fns []*ssa.Function, rule string) {
 				recvP = fn.Params[0]
 			}
 			for i, a := range args {
-				if prm, ok := a.(*ssa.Parameter); ok && prm.Parent() == fn && prm != recvP {
+				if prm, ok := a.(*ssa.Parameter); ok && prm.Parent() == fn && prm != recvP && len(prm.Name()) > 1 {
+					// one-letter names (a, b, i, j) are positional, not roles: cmp(b, a) is how a reversed order is written
 					passedAt[prm.Name()] = append(passedAt[prm.Name()], i)
 				}
 			}
@@ -3138,4 +3170,58 @@ func ordinalOfCallI(fn *ssa.Function, call ssa.CallInstruction) int {
 		}
 	}
 	return 0
+}
+
+// pooledCtxFromConstructor: the formatting contexts the pool hands out are made by the constructor that sets the
+// constructor constants (sorting / de-duplication on, quoting defaults): every function of the package that returns
+// a freshly made *PrintCtx as an interface value (a sync.Pool New function) returns the result of newPrintCtx, or
+// a literal that stores the same constants.
+func pooledCtxFromConstructor(c *Ctx, p *Prog, rule string) {
+	r := c.R
+	ctor := p.Func(p.Slog, "newPrintCtx")
+	if ctor == nil {
+		r.Unk(rule, "pool-constructor", "-", "newPrintCtx not found")
+		return
+	}
+	n := 0
+	for _, fn := range p.RepoFuncs() {
+		if fn.Pkg != p.Slog || fn.Signature.Params().Len() != 0 || fn.Signature.Results().Len() != 1 || !types.IsInterface(fn.Signature.Results().At(0).Type()) {
+			continue
+		}
+		for _, b := range fn.Blocks {
+			ret, ok := b.Instrs[len(b.Instrs)-1].(*ssa.Return)
+			if !ok {
+				continue
+			}
+			mi, ok := ret.Results[0].(*ssa.MakeInterface)
+			if !ok || typeName(mi.X.Type()) != "PrintCtx" {
+				continue
+			}
+			n++
+			good := false
+			detail := ""
+			switch x := mi.X.(type) {
+			case *ssa.Call:
+				if calleeOf(x) == ctor {
+					good = true
+				} else if cal := calleeOf(x); cal != nil {
+					detail = "made by " + shortName(cal)
+				}
+			case *ssa.Alloc:
+				for _, fs := range fieldStores(fn) {
+					if fs.Struct == "PrintCtx" && fs.Field == "dedupeAttrs" {
+						if v, isC := constBool(fs.Val); isC && v {
+							good = true
+						}
+					}
+				}
+				detail = "a literal that does not set the constructor constants"
+			}
+			r.Check(good, rule, "pool-constructor:"+shortName(fn), p.Pos(instrPos(ret)), "the pooled context is made by newPrintCtx",
+				"the formatting context handed out by "+shortName(fn)+" is "+detail+", not by newPrintCtx: its constructor constants (sort and de-duplicate the attributes, quoting defaults) are left at their zero values, so records print duplicate keys in argument order")
+		}
+	}
+	if n == 0 {
+		r.Unk(rule, "pool-constructor", "-", "no pool constructor function returning a *PrintCtx found")
+	}
 }
